@@ -1,20 +1,55 @@
-(** Property C01 — rendered text is exactly what the translation source says (work in progress). *)
+(** Property C01 — rendered text is exactly what the translation source says.
+    Parser level: from the translation string to the reduced value the code generator consumes.
+    This file holds only property theorems (closed by [exact]), examples and assumption audits. *)
 From Coq Require Import List NArith Bool.
 Import ListNotations.
-From LI Require Import Base.StrOps Parser.Parse Parser.Json Parser.Reduce Parser.Source Parser.ParseCheck.
+From LI Require Import Base.StrOps Base.StrLemmas Parser.Parse Parser.Json Parser.Reduce Parser.Source Parser.ParseCheck
+  Parser.Scan Parser.RoundTrip1 Parser.RoundTrip2 Parser.RoundTrip3 Parser.RoundTrip4 Parser.RoundTrip5 Parser.ReduceProofs.
+
+(** Round trip, for every well-formed source of the documented grammar — text (any Unicode except
+    '<', '{', '$'), {{ var }} and {{ var, formatter(args) }} with any whitespace padding, components
+    nested to arbitrary depth including same-name nesting, with any whitespace inside the tags —
+    every identifier oracle and every JSON oracle: ParsedValue::new on the printed source succeeds,
+    reduce succeeds, and the reduced value denotes exactly the source's pieces: literal text verbatim
+    and in order, each variable with its documented formatter, each component around its children.
+    Nothing dropped, duplicated or reordered. *)
+Theorem C01_roundtrip : forall (idc : str -> idres) (json_args : str -> res (list (str * jarg))) (items : list Source.item),
+  items_wfb idc items = true ->
+  exists v r, parse_top idc json_args true (print_list items) = Ok v /\ reduce v = Ok r
+              /\ pieces r = denote_list items.
+Proof. exact roundtrip_reduced. Qed.
+
+(** reduce preserves the denotation of every value without unresolved foreign keys *)
+Theorem C01_reduce_sound : forall v, no_foreign v = true -> exists r, reduce v = Ok r /\ pieces r = pieces v.
+Proof. exact reduce_pieces. Qed.
+
+(** the closing tag of a component is found exactly, whatever balanced children and siblings surround it *)
+Theorem C01_closing_tag_found : forall key kids rest w0 w1 w2,
+  Scan.items_wf kids -> Scan.items_wf rest -> all_ws w0 -> all_ws w1 -> all_ws w2 -> name_ok key ->
+  let inner := flats (toks_list kids) in
+  let close := flat (TClose w0 w1 w2 key) in
+  scan_gen true key (inner ++ close ++ flats (toks_list rest)) 0 0 None
+  = Some (blen inner, (blen inner + blen close)%nat).
+Proof. exact closing_tag_found. Qed.
+
+(** non-vacuity: a nested, same-name, padded source satisfies the hypothesis (ASCII identifier oracle)
+    source:  a <b >x<b>{{ n , number }}</b></ b > c *)
+Definition w_src2 : list Source.item :=
+  [SText [97;32]%N;
+   SComp [] [98]%N [32]%N
+     [SText [120]%N; SComp [] [98]%N [] [SVar [32]%N [110]%N [32]%N (Some ([32;110;117;109;98;101;114]%N, [32]%N, FNumber 0%N))] [] [] []]
+     [] [32]%N [32]%N;
+   SText [32;99]%N].
+Example C01_wf_witness : items_wfb ident_check w_src2 = true.
+Proof. vm_compute. reflexivity. Qed.
 
 (** the pre-fix parser leaves a stray '>' after `</b >`: source  a <b>x</b > c *)
-Definition w_src : list item :=
+Definition w_src : list Source.item :=
   [SText [97;32]%N; SComp [] [98]%N [] [SText [120]%N] [] [] [32]%N; SText [32;99]%N].
 Theorem C01_old_refuted :
+  items_wfb ident_check w_src = true /\
   match model_parse_old (print_list w_src) with
   | Ok v => match reduce v with Ok r => pieces_eqb (pieces r) (denote_list w_src) | _ => true end
   | _ => true
   end = false.
-Proof. vm_compute; reflexivity. Qed.
-Theorem C01_closing_tag_found :
-  match model_parse (print_list w_src) with
-  | Ok v => match reduce v with Ok r => pieces_eqb (pieces r) (denote_list w_src) | _ => false end
-  | _ => false
-  end = true.
-Proof. vm_compute; reflexivity. Qed.
+Proof. split; vm_compute; reflexivity. Qed.
